@@ -738,7 +738,8 @@ PROPS['C11'] = dict(
 )
 
 # ------------------------------------------------------------------------------------------- C03 (plane cut)
-_PLANE_CUT_N = lambda mod: [('crate::proj', 'crate::nested::%s::stub_proj' % mod), ('crate::unproj', 'crate::nested::%s::stub_unproj' % mod)]
+_PLANE_CUT_N = lambda mod: [('crate::proj', 'crate::nested::%s::stub_proj' % mod), ('crate::unproj', 'crate::nested::%s::stub_unproj' % mod),
+                            ('crate::nested::Layer::d0h_lh_in_d0c', 'crate::nested::%s::stub_d0h_lh_plane' % mod)]
 def _c03_us(d):
     return {'verif_common::*': max(6, d + 1), 'nested::verif_c03::*': 6, 'compass_point::*': 6, 'nested::Layer::vertices_map#*': 6}
 
@@ -786,7 +787,8 @@ PROPS['C03'] = dict(
             'thorough': 'adds depths 3, 8, 16, 17, 28 (cells, offsets, vertices, paths, image), image at depth 29 and the range / offset clause at every depth 0..=29'},
     outside='the composition with the real proj / unproj within ulps of a cell border and the 1e-13 rad figure near the poles (they depend on the actual libm values; C17 bounds the pair '
             'separately); the clause "the cell given by hash" (hash_v2 vs hash_with_dxdy) is evaluated by the native oracle on replay only; other path segment counts',
-    assumptions=_LIBM_ASSUME + ['plane cut: proj returns an arbitrary point of the HEALPix image (guarantee I of C17, slack 2^-50), unproj is the identity on the plane with its domain assertion kept'],
+    assumptions=_LIBM_ASSUME + ['plane cut: proj returns an arbitrary point of the HEALPix image (guarantee I of C17, slack 2^-50), unproj is the identity on the plane with its domain assertion kept',
+                                'Layer::d0h_lh_in_d0c (called by hash_with_dxdy on / next to the polar base-cell borders) returns any base cell and in-base-cell coordinates placing the same plane point within 2^-46 (lemmas R and P of C01)'],
 )
 
 # ------------------------------------------------------------------------------------------- C19 (cut at hash_with_dxdy)
